@@ -16,6 +16,7 @@ BEGIN, COMMIT and everything outside a write transaction are scheduling
 points.
 """
 import os
+import sys
 import threading
 import time
 
@@ -72,6 +73,7 @@ class Scheduler(interpose.Listener):
         self.vclock = None              # virtual-time clock for sleeping clients (throttle)
         self.yield_in_txn = False       # also yield at statements inside a held write transaction (threads sharing an object)
         self.yield_after_release = False  # also yield straight after COMMIT / ROLLBACK released the lock
+        self.line_yields = None         # directory: also yield before every Python line executed in files under it
 
     # ------------------------------------------------------------------ ids
     def fid(self, path):
@@ -234,6 +236,23 @@ class Scheduler(interpose.Listener):
     def add_client(self, cid, program, warmup=None):
         self.clients[cid] = Client(cid, program, warmup)
 
+    def _make_tracer(self):
+        """Threads sharing one object also share its attributes: every line of the library becomes a scheduling point
+        (switches between two Python statements with no database or file operation between them)."""
+        root = self.line_yields
+        sched = self
+
+        def local(frame, event, arg):
+            if event == 'line':
+                sched.yield_point('line', 'line', nofault=True)
+            return local
+
+        def tracer(frame, event, arg):
+            if event == 'call' and frame.f_code.co_filename.startswith(root):
+                return local
+            return None
+        return tracer
+
     def _body(self, c):
         try:
             if c.warmup is not None:
@@ -248,7 +267,13 @@ class Scheduler(interpose.Listener):
                 while self.baton != c.cid:
                     self.cv.wait()
             if not c.killed:
-                c.program(c)
+                if self.line_yields:
+                    sys.settrace(self._make_tracer())
+                try:
+                    c.program(c)
+                finally:
+                    if self.line_yields:
+                        sys.settrace(None)
         except Stop:
             pass
         except BaseException as exc:            # client programs catch library exceptions themselves
